@@ -1051,7 +1051,7 @@ class TriangularFactoredDefiniteMatrix(
         inv_factor_vector = self.factor.inv @ vector
         inv_vector = self.inv @ vector
         return _make_array_triangular(
-            -2 * self.sign * np.outer(inv_vector, inv_factor_vector),
+            -2 * np.outer(inv_vector, inv_factor_vector),
             lower=self.factor.lower,
         )
 
@@ -2480,11 +2480,13 @@ class PositiveDefiniteLowRankUpdateMatrix(
 
     @property
     def grad_log_abs_det(self) -> NDArray:
-        return 2 * (self.inv @ (self.factor_matrix.array @ self.inner_pos_def_matrix))
+        return (2 * self._sign) * (
+            self.inv @ (self.factor_matrix.array @ self.inner_pos_def_matrix)
+        )
 
     def grad_quadratic_form_inv(self, vector: NDArray) -> NDArray:
         inv_matrix_vector = self.inv @ vector
-        return -2 * np.outer(
+        return (-2 * self._sign) * np.outer(
             inv_matrix_vector,
             self.inner_pos_def_matrix @ (self.factor_matrix.T @ inv_matrix_vector),
         )
